@@ -81,4 +81,25 @@ CLAIMED = {
              "stage invocations are covered by a catch-all that records the exception.",
         note="memory held inside moodycamel queues and which exception is rethrown (C05) are not decided here",
     ),
+    "C09": dict(
+        technique="ordering/reachability + loop-iteration must-pass + def-use rules over clang CFGs of the shutdown handshake",
+        text="stop() precedes wakeAll() precedes join in the destructor and resizeLocked; wakeAll bumps every group's epoch in every iteration (also for "
+             "groups without sleepers); the worker never refreshes the epoch it will wait on between its running() test and the wait; the futex "
+             "compares against the just-loaded epoch; running_/epoch orders. These are the necessary conditions of the no-backstop handshake.",
+        note="does not decide the interleaving argument itself nor kernel progress",
+    ),
+    "C18": dict(
+        technique="who-may-call + guard-dominance on the status CAS + path counting (finite-state) over clang CFGs of all Future instantiations",
+        text="runFunc is reachable only through the kNotStarted->kRunning CAS winner; result published (notify kReady) before the chain/counter; wait() "
+             "returns only after an acquire kReady observation or the blocking wait(kReady); get() reads after wait(); constructors schedule the run "
+             "exactly once on every path; reference counting sites release/add exactly once and dealloc only on the last reference.",
+        note="atomicity of the CAS is the language's; value equality of results is not decided",
+    ),
+    "C19": dict(
+        technique="must-pass-through (push-then-recheck), guard-dominance and ordering rules over clang CFGs",
+        text="After publishing a link every path re-loads the status with acquire and drains on kReady; the completer publishes kReady before draining; a "
+             "chain is walked only after a successful detach CAS; links are invoked and their next pointer read before they are freed; wrappers wait on "
+             "the antecedent before calling the user function; when_all/when_any fire under fetch_sub==1 / winning CAS only.",
+        note="exactly-once under all interleavings needs the atomicity argument, which is not decided statically here",
+    ),
 }
